@@ -26,6 +26,7 @@ RULE = (
     "values, and the generated methods' invocation counters must stay 0. Systematic part: each single method x each behaviour x 3 bases on a "
     "fixed script. Non-trivial = class overriding >= 2 methods on a forest with a node that has >= 2 children."
     ' Also: cachedsearch calls among the compared queries.'
+    " Also: more '**'/'..' glob patterns, SymlinkNodes pointing at generated nodes."
 )
 ASSUMPTIONS = [
     "the harness itself touches nodes only through 'is', id() and attribute access, so every counted invocation comes from the library",
